@@ -65,11 +65,20 @@ fn make_pad_delivery(cx: &mut Cx, kc: &KeyCase, owner: &SecretKey, counter: u64)
             raw.signature = None;
             (gen::pad_record(&raw.to_pad()), format!("unsigned#{counter}"), None)
         }
-        78..=85 => {
+        78..=81 => {
             // right address, signature by somebody else
             let mut raw = gen::RawPad::from_pad(&gen::pad(owner, counter, &data, 0));
             raw.sign(&other);
             (gen::pad_record(&raw.to_pad()), format!("signed-by-other#{counter}"), None)
+        }
+        82..=85 => {
+            // another owner's genuine pad - seen and validated in this process before - with its counter, payload and
+            // signature transplanted under THIS owner's address (whatever the earlier validation left behind must not vouch for it)
+            let theirs = gen::pad(&other, counter, &data, 0);
+            let _ = theirs.is_valid();
+            let mut raw = gen::RawPad::from_pad(&theirs);
+            raw.address = ant_protocol::storage::ScratchpadAddress::new(owner.public_key());
+            (gen::pad_record(&raw.to_pad()), format!("signed-by-other#{counter}(transplanted)"), None)
         }
         86..=92 => {
             // another owner's (valid) pad presented under this key
